@@ -11,31 +11,52 @@ Definition FB := 64%nat.
 Ltac run_analysisB := vm_compute; reflexivity.
 
 (* two DDict handles; the repaired ZSTD_DCtx_refDDict *)
-Definition bcl (a b c d : N) := bclient true 2 a b c d.
-Definition btd (a b c d : N) := bteardown true 2 a b c d.
+Definition bcl (a b c d : N) := bclient true true 2 a b c d.
+Definition btd (a b c d : N) := bteardown true true 2 a b c d.
 
-Lemma bclient_noret : forall fx nd a b c d o op s, snd (run o (bclient fx nd a b c d op) s) = false.
+(* a program without a [Return] outside a [Call] never "returns" out of the caller's sequence *)
+Fixpoint nrt (p : prog) : bool :=
+  match p with
+  | Return _ => false
+  | Seq p q | IfNull _ p q | IfFlag _ p q | Choice _ p q | IfEmpty _ p q | PopElse _ _ p q | IfErr p q => nrt p && nrt q
+  | Star p => nrt p
+  | _ => true
+  end.
+Lemma iter_noret : forall n f, (forall s, snd (f s) = false) -> forall s, snd (iter n f s) = false.
 Proof.
-  intros fx nd a b c d o op s. destruct op; unfold bclient, bapi; cbn [run].
-  - destruct (sget s R_dctx); [reflexivity|]. destruct (run o (bop_prog fx nd a b c d BCreate) _); reflexivity.
-  - destruct (run o (bop_prog fx nd a b c d BFree) _) as [s1 r1]. cbn [run].
-    unfold clear_bel, for_ks. generalize (ks nd). intros l.
-    generalize (upd_slots s1 (set R_dctx None (slots s1))). induction l as [|x l IH]; intros s2; [reflexivity|].
-    cbn [fold_right run]. apply IH.
-  - destruct (sget s R_dctx); [|reflexivity]. destruct (sget s (RD k)); [|reflexivity].
-    destruct (run o (bop_prog fx nd a b c d (BRef k)) _) as [s1 r1]. cbn [run]. destruct (status s1); reflexivity.
-  - destruct (sget s R_dctx); [|reflexivity]. destruct (sget s (RD k)); [|reflexivity].
-    destruct (run o (bop_prog fx nd a b c d (BRefObs k n)) _) as [s1 r1]. cbn [run]. destruct (status s1); reflexivity.
-  - destruct (sget s R_dctx); [|reflexivity]. destruct (run o (bop_prog fx nd a b c d BUnref) _); reflexivity.
-  - destruct (sget s R_dctx); [|reflexivity]. destruct (run o (bop_prog fx nd a b c d BDecomp) _); reflexivity.
-  - destruct (sget s R_dctx); [|reflexivity]. destruct (run o (bop_prog fx nd a b c d BResetParams) _) as [s1 r1]. cbn [run].
-    unfold clear_bel, for_ks. generalize (ks nd). intros l. generalize s1.
-    induction l as [|x l IH]; intros s2; [reflexivity|]. cbn [fold_right run]. apply IH.
-  - destruct (sget s (RD k)); [reflexivity|]. destruct (run o (bop_prog fx nd a b c d (BDDCreate k byRef)) _); reflexivity.
-  - destruct (flget s (RF_bel k)); [reflexivity|]. destruct (run o (bop_prog fx nd a b c d (BDDFree k)) _); reflexivity.
-  - destruct (sget s R_dctx); [|reflexivity]. destruct (run o (bop_prog fx nd a b c d (BLoad byRef sz)) _); reflexivity.
-  - destruct (sget s R_dctx); [|reflexivity]. destruct (run o (bop_prog fx nd a b c d (BStream n sz)) _); reflexivity.
+  induction n as [|n IH]; intros f H s; cbn [iter]; [reflexivity|].
+  pose proof (H s) as Hs. destruct (f s) as [s1 r]. cbn in Hs. subst r. apply IH. exact H.
 Qed.
+Lemma nrt_sound : forall p, nrt p = true -> forall o s, snd (run o p s) = false.
+Proof.
+  induction p; intros Hn o s; cbn [nrt] in Hn; try discriminate;
+    try (apply andb_true_iff in Hn; destruct Hn as [H1 H2]); cbn [run].
+  - reflexivity.
+  - pose proof (IHp1 H1 o s) as E. destruct (run o p1 s) as [s1 r]. cbn in E. subst r. apply IHp2; assumption.
+  - cbv zeta. destruct (fails o (S (next s))); reflexivity.
+  - destruct (sget s l); reflexivity.
+  - reflexivity.
+  - reflexivity.
+  - destruct (sget s l); [destruct (mem_nat n (live s))|]; reflexivity.
+  - destruct (sget s l); [apply IHp2|apply IHp1]; assumption.
+  - reflexivity.
+  - destruct (flget s f); [apply IHp1|apply IHp2]; assumption.
+  - cbv zeta. destruct (choose o (nchoice s)); [apply IHp1|apply IHp2]; assumption.
+  - destruct (sget s l); reflexivity.
+  - destruct (fget s f); reflexivity.
+  - destruct (fget s f); [apply IHp1|apply IHp2]; assumption.
+  - destruct (fget s f); [apply IHp1|apply IHp2]; assumption.
+  - reflexivity.
+  - reflexivity.
+  - destruct (fget s src); reflexivity.
+  - destruct (run o p _); reflexivity.
+  - destruct (status s); [apply IHp2|apply IHp1]; assumption.
+  - reflexivity.
+  - cbv zeta. apply iter_noret. intros s0. apply IHp. exact Hn.
+Qed.
+
+Lemma bclient_noret : forall fx px a b c d o op s, snd (run o (bclient fx px 2 a b c d op) s) = false.
+Proof. intros fx px a b c d o op s. apply nrt_sound. destruct op; reflexivity. Qed.
 
 (* histories: any operation on the DCtx, the DDicts 0 and 1 (created by copy or by reference); the observation-driven variant of
    the tie is not part of them *)
@@ -47,14 +68,14 @@ Definition bok (o : bop) : bool :=
   end.
 
 Definition St_borrow : list astate :=
-  Eval vm_compute in unoptL (reachSL FB (map (bclient true 2 0 0 0 0) (breps 2)) ainit).
+  Eval vm_compute in unoptL (reachSL FB (map (bclient true true 2 0 0 0 0) (breps 2)) ainit).
 
 Lemma lt2 : forall k, (k <? 2) = true -> k = 0 \/ k = 1.
 Proof. intros k H. apply N.ltb_lt in H. lia. Qed.
 
 Lemma borrow_closed : forall a b c d op, bok op = true -> closedSF FB St_borrow aerr_iff_fail (bcl a b c d op) = true.
 Proof.
-  intros a b c d op H. destruct op as [| |k|k n| | | |k byRef|k|byRef sz|n sz]; cbn in H; try discriminate;
+  intros a b c d op H. destruct op as [| |k|k n| | | |k byRef|k|byRef sz|n sz|]; cbn in H; try discriminate;
     try (destruct (lt2 _ H); subst k); try destruct byRef; try (destruct n as [|[p|p|]]); run_analysisB.
 Qed.
 Lemma borrow_teardown : forall a b c d, all_res aclean (aexecS FB true (btd a b c d) St_borrow) = true.
@@ -67,7 +88,7 @@ Theorem borrow_any_history_no_leak_l : forall a b c d ops, forallb bok ops = tru
   live s = [] /\ errs s = [].
 Proof.
   intros a b c d ops H o.
-  apply (ghistory_then_teardown bop (bcl a b c d) (bclient_noret true 2 a b c d) FB bok St_borrow _ _ borrow_init (borrow_closed a b c d) (borrow_teardown a b c d) ops H).
+  apply (ghistory_then_teardown bop (bcl a b c d) (bclient_noret true true a b c d) FB bok St_borrow _ _ borrow_init (borrow_closed a b c d) (borrow_teardown a b c d) ops H).
 Qed.
 
 Theorem borrow_any_history_error_iff_failure_l : forall a b c d ops op, forallb bok ops = true -> bok op = true -> forall o,
@@ -75,7 +96,7 @@ Theorem borrow_any_history_error_iff_failure_l : forall a b c d ops op, forallb 
   status s = false <-> (0 < nfail s)%nat.
 Proof.
   intros a b c d ops op H Hop o. cbn zeta.
-  destruct (ghistory_last bop (bcl a b c d) (bclient_noret true 2 a b c d) FB bok St_borrow _ (borrow_closed a b c d) ops op H Hop o ainit init_state borrow_init G_init) as [x [A B]].
+  destruct (ghistory_last bop (bcl a b c d) (bclient_noret true true a b c d) FB bok St_borrow _ (borrow_closed a b c d) ops op H Hop o ainit init_state borrow_init G_init) as [x [A B]].
   exact (gstatus_of_G _ _ B A).
 Qed.
 
@@ -99,14 +120,14 @@ Theorem borrow_reusable_after_any_history_l : forall a b c d ops, forallb bok op
   status s2 = true /\ errs s2 = [].
 Proof.
   intros a b c d ops H o1 o2 Hnf k Hk. cbn zeta. intros Hl.
-  destruct (ghistory_then_recover bop (bcl a b c d) (bclient_noret true 2 a b c d) FB bok St_borrow _ astatus_okB R_dctx _
+  destruct (ghistory_then_recover bop (bcl a b c d) (bclient_noret true true a b c d) FB bok St_borrow _ astatus_okB R_dctx _
               borrow_init (borrow_closed a b c d) borrow_not_dang (borrow_recover a b c d k Hk) ops H o1 o2 Hnf Hl) as [x [A B]].
   split; [rewrite <- (g_status _ _ B); exact A|exact (g_errs _ _ B)].
 Qed.
 
 (* ------------------------------------------------------------------ ZSTD_DCtx_refDDict as found: concrete refutation *)
 Definition run_b (fx : bool) (ops : list bop) (faults : list nat) (choices : list bool) : list nat * list err * bool :=
-  let s := fst (run (oracle_of faults choices []) (Seq (gsession bop (bclient fx 2 1 2 3 4) ops) (bteardown fx 2 1 2 3 4)) init_state) in
+  let s := fst (run (oracle_of faults choices []) (Seq (gsession bop (bclient fx true 2 1 2 3 4) ops) (bteardown fx true 2 1 2 3 4)) init_state) in
   (live s, errs s, status s).
 
 (* finding dctx-refddict-failed-call-takes-effect: the set cannot be created (4th allocation: DCtx, DDict struct, DDict content,
@@ -121,6 +142,18 @@ Lemma refddict_failed_expansion_takes_effect_refuted_l :
   (exists e, snd (fst (run_b false [BCreate; BDDCreate 1 true; BRef 1; BDDCreate 0 true; BRef 0; BDDFree 0; BDecomp] [6%nat] [true])) = e /\ In (EUseDead (RD 0)) e)
   /\ run_b true [BCreate; BDDCreate 1 true; BRef 1; BDDCreate 0 true; BRef 0; BDDFree 0; BDecomp] [6%nat] [true] = ([], [], true).
 Proof. split; [eexists; split; [vm_compute; reflexivity|cbn; auto]|vm_compute; reflexivity]. Qed.
+
+(* finding prefix-used-up-by-failed-frame-start (decoder side): ZSTD_DCtx_refPrefix, a frame whose stream buffer cannot be allocated
+   (3rd allocation: DCtx, prefix DDict, buffer), the same frame again after the reset: as found the single-use reference was taken by
+   the failed frame start, the prefix is released and the frame fails for its content - an error although no allocation failed; with
+   the repair the second attempt succeeds *)
+Definition run_p (px : bool) (ops : list bop) (op : bop) (faults : list nat) (choices : list bool) : bool * nat * list err :=
+  let s := fst (run (oracle_of faults choices []) (Seq (gsession bop (bclient true px 2 1 2 3 4) ops) (bclient true px 2 1 2 3 4 op)) init_state) in
+  (status s, nfail s, errs s).
+Lemma prefix_used_up_by_failed_frame_start_refuted_l :
+  run_p false [BCreate; BRefPrefix; BStream 0 0] (BStream 0 0) [3%nat] [] = (false, 0%nat, [])
+  /\ run_p true [BCreate; BRefPrefix; BStream 0 0] (BStream 0 0) [3%nat] [] = (true, 0%nat, []).
+Proof. split; vm_compute; reflexivity. Qed.
 
 (* ------------------------------------------------------------------ lib/legacy/zstd_v04.c as found on 2026-10-02:
    ZBUFFv04 records its buffer sizes before the malloc and does not test its inner context (the two defects repaired in
